@@ -164,6 +164,46 @@ def mutate_everything(obj, rng) -> int:
     return n
 
 
+def ids_of(obj) -> Dict[str, set]:
+    """The IDs an object and everything below it carry, by kind."""
+    from srctools.vmf import Entity, Solid, Side, VisGroup, EntityGroup
+    out: Dict[str, set] = {}
+    if isinstance(obj, Entity):
+        out['entity'] = {obj.id}
+        out['solid'] = {s.id for s in obj.solids}
+        out['face'] = {f.id for s in obj.solids for f in s.sides}
+    elif isinstance(obj, Solid):
+        out['solid'] = {obj.id}
+        out['face'] = {f.id for f in obj.sides}
+    elif isinstance(obj, Side):
+        out['face'] = {obj.id}
+    elif isinstance(obj, VisGroup):
+        out['visgroup'] = {g.id for g in _vis_walk(obj)}
+    elif isinstance(obj, EntityGroup):
+        out['group'] = {obj.id}
+    return out
+
+
+def owner_of(obj) -> Any:
+    return getattr(obj, 'map', None) or getattr(obj, 'vmf', None)
+
+
+def check_fresh_ids(run, orig, cp, label: str, engine: str, case: Any) -> None:
+    """A copy that lives in the same map as its source has IDs of its own ("freshly assigned"), whatever ID policy the map uses."""
+    if owner_of(orig) is None or owner_of(cp) is not owner_of(orig):
+        return
+    a, b = ids_of(orig), ids_of(cp)
+    for kind in a:
+        shared = a[kind] & b.get(kind, set())
+        run.count('same_map_copies_checked_for_fresh_ids')
+        if shared:
+            run.violation(f'{label}: the copy shares the {kind} ID(s) {sorted(shared)[:5]} with its source, both in the same map',
+                          witness={'source_ids': {k: sorted(v)[:12] for k, v in a.items()}, 'copy_ids': {k: sorted(v)[:12] for k, v in b.items()},
+                                   'preserve_ids_map': bool(case.get('preserve_ids')) if isinstance(case, dict) else None},
+                          case=case, engine=engine, key=f'copy-keeps-source-id:{kind}')
+            return
+
+
 def check_copy(run, rng, orig, make_copy: Callable[[], Any], label: str, engine: str, case: Any, complete: bool = True) -> int:
     """Completeness (unless the copy is documented to leave something out) + independence for one object and one way of copying it."""
     ex0 = export_of(orig)
@@ -173,6 +213,7 @@ def check_copy(run, rng, orig, make_copy: Callable[[], Any], label: str, engine:
         run.violation(f'{label}: copy raised {exc!r}', witness=traceback.format_exc()[-900:], case=case, engine=engine, key=f'copy-raises:{label}')
         return 0
     run.count('copies')
+    check_fresh_ids(run, orig, cp, label, engine, case)
     ex_c = export_of(cp)
     if export_of(orig) != ex0:
         run.violation(f'{label}: copying changed the original', case=case, engine=engine, key=f'copy-mutates-source:{label}')
@@ -476,6 +517,13 @@ def one_case(run, seed: int, i: int, engine: str = 'copy') -> None:
     vmf, features = gen_vmf.gen_map(rng, size='normal')
     other = VMF()
     case = {'id': i}
+    if i % 4 == 1:
+        # the same map as a tool that keeps the IDs of the file has it: read back with preserve_ids=True (that map hands out
+        # a requested ID unchanged, so only copies that ask for a new one get one)
+        from srctools.keyvalues import Keyvalues as _KV
+        vmf = VMF.parse(_KV.parse(vmf.export()), preserve_ids=True)
+        case['preserve_ids'] = True
+        run.count('maps_in_preserve_ids_mode')
     muts = 0
     ents = list(vmf.entities)
     key_text = []
@@ -490,6 +538,10 @@ def one_case(run, seed: int, i: int, engine: str = 'copy') -> None:
     node_src = [x for x in ents if 'nodeid' in x][:2]
     if not node_src and i % 3 == 0:
         node_src = [vmf.create_ent('info_node', nodeid=str(rng.randrange(1, 9)))]
+    if case.get('preserve_ids'):
+        # a preserve_ids map documents that a requested ID "will be passed through unchanged"; the nodeid keyvalue of a copy
+        # and of a new node is such a request, so the node-ID laws below are stated for ordinary maps only
+        node_src = []
     for e in node_src:
         want_id = e['nodeid']
         cp = e.copy() if i % 2 else e.copy(vmf_file=vmf)
@@ -607,4 +659,4 @@ def replay(run, data) -> None:
 
 
 # (kept at the end of the file so that the text above stays the description the check was first built to)
-RULE += ' ' + 'Later additions: every binary operator over every pair of operand kinds (mutable, frozen, tuple, scalar) in both orders plus the unary operators and value-returning methods, results edited in place; copy options (side_mapping law, keep_vis=False, other map), the map every part of a copy belongs to, copies of worldspawn, cross-map Side / EntityGroup copies. Visgroup trees copied within the map and into another one: every group of the copy belongs to the destination map, its ID is reserved there and collides with nothing, the reserved IDs of the source map are untouched, and the mapping names every group.'
+RULE += ' ' + 'Later additions: every binary operator over every pair of operand kinds (mutable, frozen, tuple, scalar) in both orders plus the unary operators and value-returning methods, results edited in place; copy options (side_mapping law, keep_vis=False, other map), the map every part of a copy belongs to, copies of worldspawn, cross-map Side / EntityGroup copies. Visgroup trees copied within the map and into another one: every group of the copy belongs to the destination map, its ID is reserved there and collides with nothing, the reserved IDs of the source map are untouched, and the mapping names every group. Every copy that lives in the same map as its source is checked for IDs of its own (entity, brush, face, visgroup, group); a quarter of the maps are read back with preserve_ids=True first.'
